@@ -3,6 +3,7 @@ SPECIFICATION Spec
 CONSTANTS
   Threads = {1, 2, 3}
   Rounds = 2
+  MoreRounds = {}
   PassiveSpin = 2
   Spurious = FALSE
   WakeOn = 2
